@@ -535,3 +535,30 @@ package atree
 //@   ensures[C13] itVisited - old(itVisited) == itYielded - old(itYielded)
 //@   modifies heap, ghost.itYielded, ghost.itVisited, alloc
 //@   loop 1: invariant itVisited - old(itVisited) == itYielded - old(itYielded) && iterator != nil && iterator.storage != nil
+
+//@ # ---- reverse-order bulk pop inside a leaf (C02, C06, C13): every element is popped with the caller's storage and callback, and the list
+//@ # is left empty with the size of an empty list
+//@ func (e *hkeyElements) PopIterate(storage, fn) (err)  serves C02 C06 C13
+//@   requires e != nil && fn != nil
+//@   ensures[C02 C06] err == nil ==> len(e.hkeys) == 0 && len(e.elems) == 0 && e.size == hkeyElementsPrefixSize
+//@   modifies heap, alloc
+
+//@ func (e *singleElements) PopIterate(storage, fn) (err)  serves C02 C06 C13
+//@   requires e != nil && fn != nil
+//@   ensures[C02 C06] err == nil ==> len(e.elems) == 0 && e.size == singleElementsPrefixSize
+//@   modifies heap, alloc
+
+//@ # ---- next-key lookup through a collision group (C13): one digest level down, in the group's own list / slab, with the unchanged request
+//@ func (e *inlineCollisionGroup) getElementAndNextKey(storage, digester, level, hkey, comparator, key) (k, v, nk, err)  serves C13 C18
+//@   requires e != nil && e.elements != nil && digester != nil && level <= 1000
+//@   before[C13] Digester.Digest: arg_recv == digester && arg_level == old(level) + 1
+//@   before[C13] elements.getElementAndNextKey: arg_recv == e.elements && arg_level == old(level) + 1 &&
+//@        arg_storage == storage && arg_digester == digester && arg_comparator == comparator && arg_key == key
+//@   modifies alloc
+
+//@ func (e *externalCollisionGroup) getElementAndNextKey(storage, digester, level, hkey, comparator, key) (k, v, nk, err)  serves C13 C18
+//@   requires e != nil && storage != nil && digester != nil && level <= 1000
+//@   before[C13] Digester.Digest: arg_recv == digester && arg_level == old(level) + 1
+//@   before[C13] MapSlab.getElementAndNextKey: arg_recv == sto[e.slabID] && arg_level == old(level) + 1 &&
+//@        arg_storage == storage && arg_digester == digester && arg_comparator == comparator && arg_key == key
+//@   modifies alloc
